@@ -708,6 +708,150 @@ end
 end factor
 
 
+/-! ### global names: the `free` handler is reached only by names no frame binds -/
+
+section globals
+variable {ρ σ : Type} (alg : Alg ρ σ) (free' : String → σ → Except String (ρ × σ)) (g : String → Bool)
+
+theorem finish_withFree (tag : String) (r : Except String (List ρ × σ)) :
+    finish (alg.withFree free') tag r = finish alg tag r := by
+  cases r <;> rfl
+
+mutual
+theorem evalDB_globals (hf : ∀ x, g x = false → free' x = alg.free x) :
+    ∀ (d : DB) (env : List ρ) (s : σ), readsGlobal g d = false →
+    evalDB (alg.withFree free') env d s = evalDB alg env d s
+  | .bvar i, env, s, _ => by simp [evalDB]
+  | .fvar x, env, s, h => by
+    simp only [readsGlobal] at h
+    simp [evalDB, Alg.withFree, hf x h]
+  | .lit c, env, s, _ => by simp [evalDB, Alg.withFree]
+  | .lam n b, env, s, _ => by simp [evalDB]
+  | .app (.fvar f) as, env, s, h => by
+    simp only [readsGlobal, Bool.or_eq_false_iff] at h
+    simp only [evalDB, finish_withFree, evalKidsDB_globals hf as env ("call:" ++ f) [] s h.2]
+  | .app (.bvar i) as, env, s, _ => by simp [evalDB]
+  | .app (.lam n b) as, env, s, _ => by simp [evalDB]
+  | .app (.node t ks) as, env, s, h => by
+    simp only [readsGlobal, Bool.or_eq_false_iff] at h
+    simp only [evalDB, evalKidsDB_globals hf ks env ("method:" ++ t) [] s h.1]
+    cases evalKidsDB alg env ("method:" ++ t) [] ks s with
+    | error e => rfl
+    | ok r =>
+      obtain ⟨vs, s1⟩ := r
+      simp only [finish_withFree, evalKidsDB_globals hf as env ("method:" ++ t) vs s1 h.2]
+  | .app (.lit c) as, env, s, h => by
+    simp only [readsGlobal, Bool.or_eq_false_iff] at h
+    simp only [evalDB]
+    show (match alg.pre "dyn" [] s with | .ok s0 => _ | .error e => _) = _
+    cases alg.pre "dyn" [] s with
+    | error e => rfl
+    | ok s0 =>
+      simp only []
+      show (match alg.lit c s0 with | .ok (v, s1) => _ | .error e => _) = _
+      cases alg.lit c s0 with
+      | error e => rfl
+      | ok r => obtain ⟨v, s1⟩ := r; simp only [finish_withFree, evalKidsDB_globals hf as env "dyn" [v] s1 h.2]
+  | .app (.app f2 bs) as, env, s, h => by
+    simp only [readsGlobal, Bool.or_eq_false_iff] at h
+    have ih := evalDB_globals hf (.app f2 bs) env
+    simp only [evalDB]
+    show (match alg.pre "dyn" [] s with | .ok s0 => _ | .error e => _) = _
+    cases alg.pre "dyn" [] s with
+    | error e => rfl
+    | ok s0 =>
+      simp only []
+      rw [ih s0 (by simp only [readsGlobal, Bool.or_eq_false_iff]; exact h.1)]
+      cases evalDB alg env (.app f2 bs) s0 with
+      | error e => rfl
+      | ok r => obtain ⟨v, s1⟩ := r; simp only [finish_withFree, evalKidsDB_globals hf as env "dyn" [v] s1 h.2]
+  | .node t ks, env, s, h => by
+    simp only [readsGlobal] at h
+    simp only [evalDB, finish_withFree, evalKidsDB_globals hf ks env t [] s h]
+theorem evalKidsDB_globals (hf : ∀ x, g x = false → free' x = alg.free x) :
+    ∀ (ks : List DB) (env : List ρ) (tag : String) (done : List ρ) (s : σ), readsGlobalL g ks = false →
+    evalKidsDB (alg.withFree free') env tag done ks s = evalKidsDB alg env tag done ks s
+  | [], env, tag, done, s, _ => by simp [evalKidsDB]
+  | .lam n b :: rest, env, tag, done, s, h => by
+    simp only [readsGlobalL, readsGlobal, Bool.or_eq_false_iff] at h
+    simp only [evalKidsDB]
+    show (match alg.enter tag done n s with | .ok (vals, s1) => _ | .error e => _) = _
+    cases alg.enter tag done n s with
+    | error e => rfl
+    | ok r =>
+      obtain ⟨vals, s1⟩ := r
+      simp only []
+      by_cases hl : vals.length = n
+      · simp only [hl, if_true]
+        rw [evalDB_globals hf b (vals.reverse ++ env) s1 h.1]
+        cases evalDB alg (vals.reverse ++ env) b s1 with
+        | error e => rfl
+        | ok r2 => obtain ⟨v, s2⟩ := r2; simp only [evalKidsDB_globals hf rest env tag (done ++ [v]) s2 h.2]
+      · simp [hl]
+  | .bvar i :: rest, env, tag, done, s, h => by
+    simp only [readsGlobalL, Bool.or_eq_false_iff] at h
+    simp only [evalKidsDB]
+    show (match alg.pre tag done s with | .ok s0 => _ | .error e => _) = _
+    cases alg.pre tag done s with
+    | error e => rfl
+    | ok s0 =>
+      simp only []
+      rw [evalDB_globals hf (.bvar i) env s0 h.1]
+      cases evalDB alg env (.bvar i) s0 with
+      | error e => rfl
+      | ok r => obtain ⟨v, s1⟩ := r; simp only [evalKidsDB_globals hf rest env tag (done ++ [v]) s1 h.2]
+  | .fvar x :: rest, env, tag, done, s, h => by
+    simp only [readsGlobalL, Bool.or_eq_false_iff] at h
+    simp only [evalKidsDB]
+    show (match alg.pre tag done s with | .ok s0 => _ | .error e => _) = _
+    cases alg.pre tag done s with
+    | error e => rfl
+    | ok s0 =>
+      simp only []
+      rw [evalDB_globals hf (.fvar x) env s0 h.1]
+      cases evalDB alg env (.fvar x) s0 with
+      | error e => rfl
+      | ok r => obtain ⟨v, s1⟩ := r; simp only [evalKidsDB_globals hf rest env tag (done ++ [v]) s1 h.2]
+  | .lit c :: rest, env, tag, done, s, h => by
+    simp only [readsGlobalL, Bool.or_eq_false_iff] at h
+    simp only [evalKidsDB]
+    show (match alg.pre tag done s with | .ok s0 => _ | .error e => _) = _
+    cases alg.pre tag done s with
+    | error e => rfl
+    | ok s0 =>
+      simp only []
+      rw [evalDB_globals hf (.lit c) env s0 h.1]
+      cases evalDB alg env (.lit c) s0 with
+      | error e => rfl
+      | ok r => obtain ⟨v, s1⟩ := r; simp only [evalKidsDB_globals hf rest env tag (done ++ [v]) s1 h.2]
+  | .app f as :: rest, env, tag, done, s, h => by
+    simp only [readsGlobalL, Bool.or_eq_false_iff] at h
+    simp only [evalKidsDB]
+    show (match alg.pre tag done s with | .ok s0 => _ | .error e => _) = _
+    cases alg.pre tag done s with
+    | error e => rfl
+    | ok s0 =>
+      simp only []
+      rw [evalDB_globals hf (.app f as) env s0 h.1]
+      cases evalDB alg env (.app f as) s0 with
+      | error e => rfl
+      | ok r => obtain ⟨v, s1⟩ := r; simp only [evalKidsDB_globals hf rest env tag (done ++ [v]) s1 h.2]
+  | .node t ks :: rest, env, tag, done, s, h => by
+    simp only [readsGlobalL, Bool.or_eq_false_iff] at h
+    simp only [evalKidsDB]
+    show (match alg.pre tag done s with | .ok s0 => _ | .error e => _) = _
+    cases alg.pre tag done s with
+    | error e => rfl
+    | ok s0 =>
+      simp only []
+      rw [evalDB_globals hf (.node t ks) env s0 h.1]
+      cases evalDB alg env (.node t ks) s0 with
+      | error e => rfl
+      | ok r => obtain ⟨v, s1⟩ := r; simp only [evalKidsDB_globals hf rest env tag (done ++ [v]) s1 h.2]
+end
+end globals
+
+
 /-! ### fusion of chained Select / Where steps on scalar-bodied lambdas -/
 
 def envOk (env : Stack Q) : Prop := ∀ x v, env.lookup x = some v → isDictNode v = false
